@@ -10,6 +10,6 @@ cCalVals == <<RI(2), RI(-1), RQ(3,2), RI(-3)>>
 cOne == <<RI(1)>>
 cKs == {NoGate}
 cInts == <<1>>
-cActs == {"ModelEval"}
+cActs == {"ModelEval", "ModelEvalNear"}
 cNoSeq == <<>>
 ====
